@@ -44,7 +44,12 @@ impl Builder {
 
     /// Write spectrum to stdout.
     pub fn write_to_stdout<S: State>(self, spectrum: &Spectrum<S>) -> io::Result<()> {
-        self.write(&mut io::stdout().lock(), spectrum)
+        let mut stdout = io::stdout().lock();
+        self.write(&mut stdout, spectrum)?;
+
+        // Stdout is line-buffered, so the tail of a binary spectrum may still sit in the buffer:
+        // flush here, since errors from the flush at process exit are silently dropped
+        io::Write::flush(&mut stdout)
     }
 
     /// Write spectrum to path.
